@@ -1,5 +1,6 @@
 import PqlModel.Props.C13
 import PqlModel.Props.C13Exact
+import PqlModel.Props.C13Arity
 #print axioms Pql.C13.C13_either
 #print axioms Pql.C13.C13_arity_table
 #print axioms Pql.C13.C13_arity_agrees
@@ -14,3 +15,9 @@ import PqlModel.Props.C13Exact
 #print axioms Pql.C13.witnessOp_disagrees
 #print axioms Pql.C13.witnessFlavor_disagrees
 #print axioms Pql.C13.witnessExtend_disagrees
+#print axioms Pql.Glue.C13_builtin_arity
+#print axioms Pql.Glue.C13_builtin_arity_source
+#print axioms Pql.Glue.C13_builtin_arity_parse
+#print axioms Pql.Glue.C13_arity_guards_agree
+#print axioms Pql.Glue.C13_passthrough_arity
+#print axioms Pql.Glue.C13_aggregate_in_where_sql
